@@ -68,12 +68,17 @@ Definition c05_sd_step (c : cfg) (s : srv) (eio : str) (payload : pv) (tbl : jta
                       | Some i =>
                           match frames_of c ACK (PList (pack v)) ns (Some i) with
                           | Ok fr =>
-                              let disc_failed := match hid_for c ev_disconnect ns with
-                                                 | Some dh => match outcome_of c dh with
-                                                              | Some (Returns _) => negb (arity_ok c dh 2 || arity_ok c dh 1
-                                                                                          || arity_ok c dh 3)
-                                                              | _ => true end
-                                                 | None => false end in
+                              (* the disconnect dispatch fails iff the responsible handler does not return, or fits
+                                 neither (prefix, sid, reason) nor the legacy (prefix, sid); catch-all targets get
+                                 the namespace prepended, hence the prefix *)
+                              let disc_failed := match responsible c ev_disconnect ns [] with
+                                                 | Some (Some dh, pre) =>
+                                                     match outcome_of c dh with
+                                                     | Some (Returns _) =>
+                                                         negb (arity_ok c dh (List.length pre + 2)
+                                                               || arity_ok c dh (List.length pre + 1))
+                                                     | _ => true end
+                                                 | _ => false end in
                               disc_failed || Nat.eqb (count_frames fr (outs_of eio obs)) 1
                           | Err _ => true
                           end
